@@ -271,7 +271,7 @@ Qed.
 (** atomic setLocalHead(x) *)
 Definition slh (x : hdr) (c : cfg) : cfg :=
   let c1 := match shim_check (c_cache c) [x] with
-            | ShimOk _ => c <| c_cache := x |> <| c_store ::= rs_append [x] |>
+            | ShimOk nh => c <| c_cache := nh |> <| c_store ::= rs_append [x] |>
             | ShimSkip => c <| c_store ::= rs_append [x] |>
             | _ => c
             end in
@@ -309,6 +309,14 @@ Ltac adv Hi :=
   erewrite tstep_at by (apply set_thr_nth; cbn; rewrite ?upd_length; exact Hi);
   cbn [t_body].
 
+Lemma shim_one_ok ca x nh : shim_check ca [x] = ShimOk nh -> h_height nh = h_height x.
+Proof.
+  unfold shim_check. destruct (_ <=? _); [|discriminate]. cbn [shim_walk].
+  destruct ((h_height x =? h_height ca) && (h_id x =? h_id ca)) eqn:E.
+  - intros [= <-]. apply Bool.andb_true_iff in E. destruct E as [E _]. apply N.eqb_eq in E. symmetry. exact E.
+  - destruct (h_height x =? wrap64 (h_height ca + 1)); [|discriminate]. intros [= <-]. reflexivity.
+Qed.
+
 (** within at most 5 steps the call has performed setLocalHead(x) and moved on *)
 Lemma slh_steps i mu res x rest c :
   nth_error (c_thr c) i = Some (TRun mu res x SL0 rest) ->
@@ -328,11 +336,12 @@ Proof.
       rewrite tsteps_S, (tstep_at i _ c H). cbn [t_body]. rewrite Hs.
       adv Hi. adv Hi. cbn. cbn in Hle. rewrite Hle. adv Hi. adv Hi.
       fin.
-  - (* adjacent *)
-    cbn. rewrite N.leb_refl.
+  - (* adjacent, or the head itself again *)
+    pose proof (shim_one_ok _ _ _ Hs) as Hnh.
+    cbn. rewrite Hnh, N.leb_refl.
     exists 4%nat. split; [lia|].
     rewrite tsteps_S, (tstep_at i _ c H). cbn [t_body]. rewrite Hs.
-    adv Hi. adv Hi. adv Hi. cbn. rewrite N.leb_refl.
+    adv Hi. adv Hi. adv Hi. cbn. rewrite Hnh, N.leb_refl.
     fin.
   - (* non-adjacent *)
     destruct (h_height x <=? h_height (c_cache c)) eqn:Hle.
